@@ -131,3 +131,36 @@ Definition bundle_check (oc ew : bool) (bts : list btask) : list (option (list Z
   (bundle_args bts,
    forallb (fun bt => let '(a, x) := res_code (btask_result c bt) in
                       let '(b, y) := res_code (task_result c (abstract_task c bt)) in (a =? b) && (x =? y)) bts).
+
+(* ------------------------------------------------------------------ what the harness OBSERVED the function of a task
+   being called with (or, for collect / icollect, what the caller got for the task): nothing, a BARE content
+   (one file's content, not wrapped in a list) or a list of contents.  The model says the function of a bundle
+   task is applied to a LIST (b_func : list Z -> fres) -- for a bundle of one file to the one-element list.
+   arg_code: 0 = the observation agrees with the model; 1 = another list; 2 = a bare content instead of the
+   list; 3 = called although the read of the bundle fails; 4 = not called *)
+Inductive oarg := ONot | OBare (c : Z) | OList (l : list Z).
+
+Definition arg_code (m : option (list Z)) (o : oarg) : Z :=
+  match m, o with
+  | None, ONot => 0
+  | None, _ => 3
+  | Some _, ONot => 4
+  | Some _, OBare _ => 2
+  | Some l, OList l' => if zlist_eqb l l' then 0 else 1
+  end.
+
+Definition mk_oarg (kind : Z) (l : list Z) : oarg :=
+  if kind =? 0 then ONot else if kind =? 1 then OBare (hd 0 l) else OList l.
+
+Fixpoint arg_codes (ms : list (option (list Z))) (os : list oarg) : list Z :=
+  match ms, os with
+  | m :: ms', o :: os' => arg_code m o :: arg_codes ms' os'
+  | m :: ms', [] => arg_code m ONot :: arg_codes ms' []
+  | [], _ => []
+  end.
+
+Definition bundle_arg_codes (bts : list btask) (obs : list (Z * list Z)) : list Z :=
+  arg_codes (bundle_args bts) (map (fun '(k, l) => mk_oarg k l) obs).
+
+(* a member that can be read and has a content *)
+Definition plain (m : mrd) : Prop := exists c, m = MOk (Some c).
